@@ -3,6 +3,8 @@ C05 - Destriping: the solver-decidable clauses (referencing, per-group recursion
 outside-brain exclusion and order of the ADC re-alignment).  Attenuation in dB / spike amplitude are FFT and
 Butterworth numerics and are outside.
 """
+from fractions import Fraction
+
 import numpy as np
 import scipy
 import scipy.signal
@@ -193,7 +195,8 @@ def case_agc(ctx, nc, ns):
     import ibldsp.voltage as v
     rows, x = _data(ctx, nc, ns, -100, 100)
     xin = arrays.mk([e for r in rows for e in r], shape=(nc, ns), tag=np.dtype(float))
-    res = ctx.call("agc", v.agc, xin, wl=0.01, si=0.002)
+    eps = ctx.real("epsilon", Fraction(1, 10 ** 8), Fraction(1, 2))          # the whitening term: any positive value (default 1e-8)
+    res = ctx.call("agc", v.agc, xin, wl=0.01, si=0.002, epsilon=eps)
     out, gain = res
     ctx.oblige("agc_shapes", tuple(out.shape) == (nc, ns) and tuple(gain.shape) == (nc, ns))
     for c in range(nc):
@@ -338,12 +341,16 @@ if bad: reproduced(f'{fn} with channel groups differs from {fn} on each group al
 not_reproduced()
 """
     if case == "agc":
-        return """
+        eps = float(Fraction(str(m.get("epsilon", "1/100000000"))))
+        return f"""
 import ibldsp.voltage as v
 rs = np.random.default_rng(0)
 x = rs.normal(size=(6, 300)); x[2] = 0
-out, gain = v.agc(x.copy(), wl=0.05, si=0.002)
-if not np.allclose(out * gain, x, atol=1e-9) or np.any(out[2] != 0): reproduced('agc: data x gain is not the input')
+for eps in (1e-8, {eps!r}):
+    out, gain = v.agc(x.copy(), wl=0.05, si=0.002, epsilon=eps)
+    err = np.max(np.abs(out * gain - x))
+    print(eps, err)
+    if err > 1e-9 or np.any(out[2] != 0): reproduced(f'agc(epsilon={{eps}}): data x gain differs from the input by {{err}}')
 not_reproduced()
 """
     if case.startswith("destripe"):
